@@ -3,8 +3,10 @@
 PATCH=$1; shift
 [ -z "$(git -C /repo status --porcelain)" ] || { echo "/repo not clean"; exit 2; }
 git -C /repo apply "$PATCH" || { echo "patch does not apply"; exit 2; }
+rm -rf /tmp/evidence_keep && cp -r /verif/evidence /tmp/evidence_keep   # runs on a mutated tree must not leave their evidence behind
 for id in "$@"; do
   /verif/bin/check $id > /tmp/try_$id.out 2>&1; rc=$?
   echo "== $id exit=$rc: $(grep -m2 -E 'VIOLATION|KNOWN' /tmp/try_$id.out | tr '\n' ' ')$(tail -1 /tmp/try_$id.out)"
 done
 git -C /repo checkout -- .
+rm -rf /verif/evidence && mv /tmp/evidence_keep /verif/evidence
